@@ -219,6 +219,31 @@ def m_slice_chunks(I, st, c, args, body, t):
     return st, IterV(None, unknown=True, deps=deps_of(v) | deps_of(n), end=RefV(cell))
 
 
+def m_as_chunks(I, st, c, args, body, t):
+    """as_chunks::<N>() / as_rchunks -> (&[[T; N]], &[T]): whole N-element arrays and the remainder (N != 0 is a compile-time check)"""
+    v = deref(I, st, args[0])
+    k = None
+    for g in (c.get("generic_args") or [])[::-1]:
+        if str(g).strip().isdigit():
+            k = int(str(g).strip())
+            break
+    if isinstance(v, VecV) and v.elems is not None and k:
+        el = list(v.elems)
+        nfull = len(el) // k
+        if c.get("name") == "as_rchunks":
+            rem, body_ = el[:len(el) - nfull * k], el[len(el) - nfull * k:]
+        else:
+            body_, rem = el[:nfull * k], el[nfull * k:]
+        arrs = [VecV(body_[i * k:(i + 1) * k], elem_ty=v.elem_ty) for i in range(nfull)]
+        a = RefV(I.new_cell(st, VecV(arrs)))
+        r = RefV(I.new_cell(st, VecV(rem, elem_ty=v.elem_ty)))
+        return st, TupleV([r, a] if c.get("name") == "as_rchunks" else [a, r])
+    summ = M._summary(v) if isinstance(v, VecV) else Top(deps_of(v), "chunk")
+    a = RefV(I.new_cell(st, VecV(None, IntV("usize", None, 0, 1 << 40), VecV(None, IntV.const("usize", k or 0), summ))))
+    r = RefV(I.new_cell(st, VecV(None, IntV("usize", None, 0, max(0, (k or 1) - 1)), summ)))
+    return st, TupleV([a, r])
+
+
 # --------------------------------------------------------------------------- iterator consumers
 
 def _elems(I, st, it):
@@ -310,12 +335,21 @@ def m_find(I, st, c, args, body, t):
         return st, _opt(e, True, it.deps)
     res = None
     deps = frozenset()
+
+    def merge(res, e):
+        if res is None:
+            return e
+        if isinstance(res, RefV) and isinstance(e, RefV) and not res.mut and not e.mut:
+            # one of several elements of read-only data: a reference to a summary of the candidates
+            return RefV(I.new_cell(st, join(deref(I, st, res), deref(I, st, e))))
+        return join(res, e)
+
     for cnd, e in out:
         st, r = _pred(I, st, args[1], e, True)
         deps |= r.deps
         if r.val is False:
             continue
-        res = e if res is None else join(res, e)
+        res = merge(res, e)
         if r.val is True and cnd == "always":
             if deps or res is not e:
                 return st, _opt(res, False, deps)
@@ -1180,6 +1214,68 @@ def m_opt_and(I, st, c, args, body, t):
     return st, _opt(pl, True)
 
 
+def m_opt_unzip(I, st, c, args, body, t):
+    """Option<(A, B)>::unzip -> (Option<A>, Option<B>): both halves are Some exactly when the pair is (same guards)"""
+    o = opt_cases(I, st, args[0])
+    outs = []
+    for i in range(2):
+        v = {}
+        if o.may("None"):
+            v["None"] = ((), o.variants["None"][1])
+        if o.may("Some"):
+            pl = o.payload("Some")
+            item = pl.items[i] if isinstance(pl, TupleV) and len(pl.items) == 2 else Top(deps_of(pl), "half of an unknown pair")
+            v["Some"] = ((item,), o.variants["Some"][1])
+        outs.append(EnumV(OPT, v))
+    return st, TupleV(outs)
+
+
+def _split_top(s):
+    out, depth, cur = [], 0, ""
+    for ch in s:
+        if ch in "<([":
+            depth += 1
+        elif ch in ">)]":
+            depth -= 1
+        if ch == "," and depth == 0:
+            out.append(cur.strip())
+            cur = ""
+        else:
+            cur += ch
+    if cur.strip():
+        out.append(cur.strip())
+    return out
+
+
+def _default_of(ty):
+    """`<ty as Default>::default()` for the std types whose default is a plain value (None if not one of them)"""
+    ty = ty.strip()
+    if ty in INT_TYPES and ty not in ("bool", "char"):
+        return IntV.const(ty, 0)
+    if ty == "bool":
+        return BoolV(False)
+    if ty == "char":
+        return IntV.const("char", 0)
+    if ty in ("f64", "f32"):
+        return FloatV(0.0, 0.0, ty=ty)
+    if ty == "()":
+        return UNIT
+    if ty.startswith("std::option::Option<"):
+        return EnumV.none()
+    if ty in ("std::string::String", "&str", "&'static str"):
+        return StrV("lit", text="")
+    if ty.startswith("std::vec::Vec<"):
+        return VecV([])
+    if ty.startswith("(") and ty.endswith(")"):
+        items = [_default_of(x) for x in _split_top(ty[1:-1])]
+        return None if any(x is None for x in items) else TupleV(items)
+    return None
+
+
+def m_default(I, st, c, args, body, t):
+    return st, _default_of((c.get("generic_args") or ["?"])[0])
+
+
 def m_or_else(I, st, c, args, body, t):
     o = opt_cases(I, st, args[0])
     if o.only("Some"):
@@ -1293,6 +1389,9 @@ def m_bool_then(I, st, c, args, body, t):
         else:
             s1, r = I.call_value(s1, args[1], [])
         g = M.guard_from(I, st, s1, {"deps": b.deps} if b.val is None else None)
+        if b.val is None and b.bit is not None and b.bit != M.TBIT and not M.bit_is_const(b.bit):
+            g = dict(g)
+            g["bit"] = b.bit            # Some exactly when this (truth-table / frame) bit is 1: kept for guarded consumers
         out["Some"] = ((I.resolve(s1, r) if isinstance(r, (IntV, BoolV)) else r,), g)
     if b.val is True:
         return (s1, EnumV(OPT, out)) if out else (st, EnumV.none())
@@ -1516,6 +1615,7 @@ def install(models):
     sl = "core::slice::<impl [T]>::"
     for nm, f in (("first", m_first_last), ("last", m_first_last), ("get", m_slice_get), ("is_empty", m_is_empty),
                   ("chunks", m_slice_chunks), ("chunks_exact", m_slice_chunks), ("windows", m_slice_chunks),
+                  ("as_chunks", m_as_chunks), ("as_rchunks", m_as_chunks),
                   ("split_at", m_split_at), ("reverse", m_slice_reverse), ("starts_with", m_starts_ends_with),
                   ("ends_with", m_starts_ends_with), ("to_owned", M.m_to_vec)):
         E[sl + nm] = f
@@ -1585,6 +1685,7 @@ def install(models):
     E[o + "and"] = m_opt_and
     E[o + "xor"] = m_opt_and
     E[o + "zip"] = m_opt_and
+    E["std::option::Option::<(T, U)>::unzip"] = m_opt_unzip
     E[o + "or_else"] = m_or_else
     E[o + "take"] = m_opt_take
     E[o + "replace"] = m_opt_replace
@@ -1664,7 +1765,10 @@ def install(models):
         if p != "std::convert::From::from" and name.endswith(">::from") and "convert::num" in name:
             # a conversion function passed as a value (`.map(f64::from)`): no callee descriptor, only the instance name
             return m_float_from_int if (" for f64>" in name or " for f32>" in name) else M.m_int_from
-        if p == "std::default::Default::default":
+        if p == "std::default::Default::default" and not (callee.get("local")):
+            ga = callee.get("generic_args") or []
+            if ga and _default_of(ga[0]) is not None:
+                return m_default
             return None
         return prev(callee, name) if prev else None
     models.lookup_extra = extra
